@@ -70,7 +70,7 @@ def weights(draw, C, r):
 
 def floors(draw, C, F, scales, r, allow_zero=False):
     """(kind, value): scalar / per-feature / per-component-and-feature variance floors."""
-    kinds = ["default", "scalar", "vector", "matrix"]
+    kinds = ["default", "scalar", "vector", "matrix", "vector", "matrix", "column", "row"]
     if allow_zero:
         kinds.append("zero")
     kind = choice(draw, kinds)
@@ -83,6 +83,10 @@ def floors(draw, C, F, scales, r, allow_zero=False):
         return kind, float(10.0**e * (scales.min() ** 2))
     if kind == "vector":
         return kind, 10.0**e * scales**2 * np.exp(r.uniform(-1, 1, F))
+    if kind == "column":  # one floor per component, as a (C, 1) column that broadcasts over the features
+        return kind, 10.0**e * (scales.min() ** 2) * np.exp(r.uniform(-1, 1, (C, 1)))
+    if kind == "row":  # per-feature floors as a (1, F) row
+        return kind, 10.0**e * (scales**2)[None, :] * np.exp(r.uniform(-1, 1, (1, F)))
     return kind, 10.0**e * (scales**2)[None, :] * np.exp(r.uniform(-1, 1, (C, F)))
 
 
